@@ -31,7 +31,7 @@ func init() {
 }
 
 func runRoamOnly(e *core.Env) {
-	e.Rec.Rule("live-roam: the real session relay (both batch modes, both key sizes): an SS2022 client session moves from an IPv4 to an IPv6 address; replies sized at the IPv4 limit, the IPv6 limit and in between must be delivered / refused according to the client's CURRENT address family; class = (protocol, batch mode)")
+	e.Rec.Rule("live-roam: the real session relay (both batch modes, both key sizes): an SS2022 client session moves from an IPv4 to an IPv6 address; replies sized at the IPv4 limit, the IPv6 limit and in between must be delivered / refused according to the client's CURRENT address family; oversize: on the NAT relay (socks5, none) and the session relay the target answers in bursts where replies that cannot fit the client's path (or the relay's receive buffer) sit back to back with ones that do - the client must hold exactly the fitting ones, intact; same-host-two-ports: one session addresses one host by name and by IP on three ports in random alternation - every datagram must reach the port it names; class = (protocol, batch mode, scenario)")
 	vtime.Freeze()
 	k := 0
 	for _, S := range []string{"ss128", "ss256"} {
@@ -46,6 +46,252 @@ func runRoamOnly(e *core.Env) {
 			core.Guard(e, "relay", ci, func() { roamCase(e, ci, S, b) })
 		}
 	}
+	// replies that cannot fit the client's path, back to back with ones that do
+	for _, S := range []string{"socks5", "none", "ss128"} {
+		for _, b := range []string{"", "no"} {
+			ci := k
+			k++
+			if e.Only >= 0 && e.Only != ci {
+				continue
+			}
+			e.Rec.Begin("relay", ci, "oversize "+S+" "+b)
+			e.Rec.Eval()
+			r := core.NewRNG(e.Seed, "c05.oversize", ci)
+			core.Guard(e, "relay", ci, func() { oversizeCase(e, ci, r, S, b) })
+		}
+	}
+	// the address a datagram names survives the upstream packer's name cache: same host, different ports
+	for _, S := range []string{"socks5", "ss128"} {
+		for _, b := range []string{"", "no"} {
+			ci := k
+			k++
+			if e.Only >= 0 && e.Only != ci {
+				continue
+			}
+			e.Rec.Begin("relay", ci, "two-ports "+S+" "+b)
+			e.Rec.Eval()
+			r := core.NewRNG(e.Seed, "c05.ports", ci)
+			core.Guard(e, "relay", ci, func() { portsCase(e, ci, r, S, b) })
+		}
+	}
+}
+
+// portsCase: one session addresses the same host by name and by IP on two different ports, alternating. Each datagram
+// must leave towards the port it names (a per-session cache of resolved names must not remember the port) and each reply
+// must carry the source it came from.
+func portsCase(e *core.Env, ci int, r *core.RNG, S, batch string) {
+	rec := e.Rec
+	dnsOnce.Do(func() { fakeDNS = svx.InstallFakeDNS() })
+	ports := svx.FreePorts(1)
+	t := &svx.Topo{Dir: filepath.Join(e.WorkDir, fmt.Sprintf("ports-%d", ci))}
+	cfg := map[string]any{
+		"servers": []any{t.Server("A", S, ports[0], svx.ServerOpts{UDP: true, BatchMode: batch, TCP: strings.HasPrefix(S, "socks5")})},
+		"clients": []any{svx.Direct("direct")},
+	}
+	inst, err := svx.Start(svx.JSON(cfg))
+	if err != nil {
+		rec.Inconclusive("ports setup: " + err.Error())
+		return
+	}
+	defer inst.Stop(20 * time.Second)
+	viol := func(kind, format string, a ...any) {
+		rec.Violate("relay", ci, core.Sig("kind", kind, "part", "relay", "S", S, "C", "direct", "batch", batch, "scenario", "same-host-two-ports"), map[string]any{"logs": inst.LogLines(12)}, format, a...)
+	}
+	nl := 1
+	if strings.HasPrefix(S, "socks5") {
+		nl = 2
+	}
+	if !inst.WaitLogs("relay service listener", nl, 40*time.Second) {
+		rec.Inconclusive("ports listeners")
+		return
+	}
+	down, err := svx.NewClient(svx.JSON(t.ClientFor("down", "A", S, ports[0], 0, false, true)))
+	if err != nil {
+		rec.Inconclusive("ports client")
+		return
+	}
+	var tgs [3]*svx.UDPTarget
+	for k := range tgs {
+		tg, err := svx.NewUDPTarget(fmt.Sprintf("P%d", k), "127.0.0.2", 0)
+		if err != nil {
+			rec.Inconclusive("ports target")
+			return
+		}
+		defer tg.Close()
+		tgs[k] = tg
+	}
+	name := fmt.Sprintf("twoports-%d-%d.test", ci, e.Seed)
+	fakeDNS.Set(name, "127.0.0.2")
+	p, err := down.NewUDPPeer("127.0.0.1")
+	if err != nil {
+		rec.Inconclusive("ports peer: " + err.Error())
+		return
+	}
+	defer p.Close()
+	n := e.N(16, 80)
+	sentTo := [3]int{}
+	for k := 0; k < n; k++ {
+		ti := r.Intn(3)
+		byName := r.Chance(2, 3)
+		var dst conn.Addr
+		if byName {
+			dst = conn.MustAddrFromDomainPort(name, tgs[ti].Addr.Port())
+		} else {
+			dst = conn.AddrFromIPPort(tgs[ti].Addr)
+		}
+		msg := fmt.Sprintf("m-%d-for-P%d", k, ti)
+		p.Send(dst, []byte(msg))
+		sentTo[ti]++
+		if !svx.Poll(30*time.Second, func() bool { return len(p.Got()) > k }) {
+			where := ""
+			for x, tg := range tgs {
+				for _, d := range tg.Got() {
+					if string(d.Payload) == msg {
+						where = fmt.Sprintf(" (it arrived at P%d, %s)", x, tg.Addr)
+					}
+				}
+			}
+			viol("datagram_or_reply_lost", "datagram %d addressed to %s got no reply%s", k, dst, where)
+			return
+		}
+		d := p.Got()[k]
+		if string(d.Payload) != fmt.Sprintf("P%d|%s", ti, msg) {
+			viol("sent_to_wrong_destination", "datagram %d addressed to %s (target P%d) was answered with %q", k, dst, ti, core.Hex(d.Payload, 40))
+			return
+		}
+		if d.From != tgs[ti].Addr {
+			viol("wrong_reply_source", "reply from P%d (%s) labelled with source %s", ti, tgs[ti].Addr, d.From)
+			return
+		}
+	}
+	for x, tg := range tgs {
+		if len(tg.Got()) != sentTo[x] {
+			viol("sent_to_wrong_destination", "target P%d received %d datagrams, %d were addressed to it", x, len(tg.Got()), sentTo[x])
+			return
+		}
+	}
+	rec.Count("two_ports_datagrams", int64(n))
+	rec.Class("%s>direct/batch=%q/same-host-two-ports", S, batch)
+}
+
+// oversizeCase: the target answers each request with a burst in which replies that cannot be relayed (too big for the
+// client's path once packed; bigger than the relay's receive buffer) sit next to small ones. "A payload that cannot
+// fit is refused rather than truncated": the client must hold exactly the small replies, intact, and nothing else.
+func oversizeCase(e *core.Env, ci int, r *core.RNG, S, batch string) {
+	rec := e.Rec
+	ports := svx.FreePorts(1)
+	t := &svx.Topo{Dir: filepath.Join(e.WorkDir, fmt.Sprintf("oversize-%d", ci))}
+	cfg := map[string]any{
+		"servers": []any{t.Server("A", S, ports[0], svx.ServerOpts{UDP: true, BatchMode: batch, TCP: strings.HasPrefix(S, "socks5")})},
+		"clients": []any{svx.Direct("direct")},
+	}
+	inst, err := svx.Start(svx.JSON(cfg))
+	if err != nil {
+		rec.Inconclusive("oversize setup: " + err.Error())
+		return
+	}
+	defer inst.Stop(20 * time.Second)
+	viol := func(kind, format string, a ...any) {
+		rec.Violate("relay", ci, core.Sig("kind", kind, "part", "relay", "S", S, "C", "direct", "batch", batch, "scenario", "oversize"), map[string]any{"logs": inst.LogLines(12)}, format, a...)
+	}
+	nl := 1
+	if strings.HasPrefix(S, "socks5") {
+		nl = 2
+	}
+	if !inst.WaitLogs("relay service listener", nl, 40*time.Second) {
+		rec.Inconclusive("oversize listeners")
+		return
+	}
+	down, err := svx.NewClient(svx.JSON(t.ClientFor("down", "A", S, ports[0], 0, false, true)))
+	if err != nil {
+		rec.Inconclusive("oversize client")
+		return
+	}
+	tc, err := net.ListenUDP("udp", &net.UDPAddr{IP: net.IPv4(127, 0, 0, 2)})
+	if err != nil {
+		rec.Inconclusive("oversize target")
+		return
+	}
+	defer tc.Close()
+	taddr := tc.LocalAddr().(*net.UDPAddr).AddrPort()
+	p, err := down.NewUDPPeer("127.0.0.1")
+	if err != nil {
+		rec.Inconclusive("oversize peer: " + err.Error())
+		return
+	}
+	defer p.Close()
+	want := map[string]bool{}
+	rounds := e.N(25, 200)
+	buf := make([]byte, 65536)
+	bigs := 0
+	for round := 0; round < rounds; round++ {
+		p.Send(conn.AddrFromIPPort(taddr), []byte(fmt.Sprintf("req-%d", round)))
+		type rx struct {
+			n    int
+			from netip.AddrPort
+		}
+		got := make(chan rx, 1)
+		go func() {
+			n, from, err := tc.ReadFromUDPAddrPort(buf)
+			if err == nil {
+				got <- rx{n, from}
+			}
+		}()
+		var in rx
+		if !svx.Poll(30*time.Second, func() bool {
+			select {
+			case in = <-got:
+				return true
+			default:
+				return false
+			}
+		}) {
+			viol("datagram_or_reply_lost", "round %d: the request did not reach the target", round)
+			return
+		}
+		// the burst, sent back to back so that the relay's receive batch holds refused and relayable replies together
+		nrep := r.Pick(2, 3, 6, 12)
+		for j := 0; j < nrep; j++ {
+			if r.Chance(1, 2) {
+				// 1463..1472: fits the relay's receive buffer but not the client's path once packed; 3000/9000: truncated on receive
+				n := r.Pick(1466, 1470, 1472, 3000, 9000)
+				tc.WriteToUDPAddrPort(core.Pattern(0xb16, 0, n), in.from)
+				bigs++
+			}
+			pl := fmt.Sprintf("ok-%d-%d-", round, j) + string(core.Pattern(uint64(round*100+j), 0, r.Pick(0, 10, 300, 1200)))
+			want[pl] = true
+			tc.WriteToUDPAddrPort([]byte(pl), in.from)
+		}
+		if !svx.Poll(30*time.Second, func() bool { return len(p.Got())+len(p.Errs()) >= len(want) }) {
+			viol("fitting_reply_dropped", "round %d: the client holds %d of the %d replies that fit (%d oversized ones were interleaved)", round, len(p.Got()), len(want), bigs)
+			return
+		}
+	}
+	vtime.RealSleep(20 * time.Millisecond)
+	if errs := p.Errs(); len(errs) > 0 {
+		viol("reply_corrupted", "the client received %d datagrams it could not decode (first: %s)", len(errs), errs[0])
+		return
+	}
+	seen := map[string]int{}
+	for _, d := range p.Got() {
+		pl := string(d.Payload)
+		if !want[pl] {
+			viol("truncated_or_foreign_reply_delivered", "the client received %d bytes that are none of the replies that fit (a piece of an oversized reply?): %s", len(d.Payload), core.Hex(d.Payload, 32))
+			return
+		}
+		seen[pl]++
+		if seen[pl] > 1 {
+			viol("reply_duplicated", "a reply was delivered twice")
+			return
+		}
+	}
+	if len(seen) != len(want) {
+		viol("fitting_reply_dropped", "the client holds %d of the %d replies that fit", len(seen), len(want))
+		return
+	}
+	rec.Count("oversize_refused_replies", int64(bigs))
+	rec.Count("oversize_fitting_replies", int64(len(want)))
+	rec.Class("%s>direct/batch=%q/oversize", S, batch)
 }
 
 // payload = magic | session | seq | target tag(8) | filler
@@ -225,6 +471,20 @@ func runRelay(e *core.Env) {
 			rec.Eval()
 			r := core.NewRNG(e.Seed, "c11.junk", ci)
 			core.Guard(e, "relay", ci, func() { junkCase(e, ci, r, S, b) })
+		}
+	}
+	// one session, one host, several ports (by name and by IP)
+	for _, S := range []string{"socks5", "none", "ss256"} {
+		for _, b := range []string{"", "no"} {
+			ci := k
+			k++
+			if e.Only >= 0 && e.Only != ci {
+				continue
+			}
+			rec.Begin("relay", ci, "two-ports "+S+" "+b)
+			rec.Eval()
+			r := core.NewRNG(e.Seed, "c11.ports", ci)
+			core.Guard(e, "relay", ci, func() { portsCase(e, ci, r, S, b) })
 		}
 	}
 	// client address family change (SS2022 sessions follow the client's latest address)
